@@ -175,6 +175,8 @@ def native_eval(case, data):
             if ok and lay.extra_in == "forbid" and any(k not in node.children for k in d):
                 definite.append(f"extra-fields@{path}")
                 fine[0] = False
+            if ok and any(isinstance(ch, Leaf) and fields[ch.field].required and k not in d for k, ch in node.children.items()):
+                definite.append(f"missing-at@{path}")
             for k, ch in node.children.items():
                 walk(ch, d.get(k) if ok and k in d else None, bool(ok and k in d), path + (k,))
         else:
@@ -315,6 +317,13 @@ def native_check(case, cap, limit=200, seed=0):
                     n_stub = sum(1 for leaf, _ in leaves if hasattr(leaf, "_about"))
                     if n_stub != len(rejected):
                         mm("all-complete", f"{len(rejected)} rejected fields, {n_stub} reported")
+                    from adaptix.load_error import NoRequiredFieldsLoadError as _NRF
+                    want_nodes = {d.split("@", 1)[1] for d in definite if d.startswith("missing-at@")}
+                    got_n = sum(1 for leaf, _ in leaves if isinstance(leaf, _NRF))
+                    # a missing key that leads to an inner container may be reported at its parent too (not fixed by the
+                    # documentation): only too FEW reports are a mismatch
+                    if got_n < len(want_nodes):
+                        mm("all-missing-reported", f"{len(want_nodes)} mappings lack required keys, {got_n} NoRequiredFieldsLoadError reported")
             if len(mismatches) > 12:
                 break
     finally:
